@@ -109,6 +109,16 @@ class Walker:
         for t in region.meta:
             if isinstance(t, model.Apply) and t.symbol == "core.order_hint.order" and len(t.args) == 2:
                 hints[(lit(t.args[0]), lit(t.args[1]))] += 1
+        key_of_child = {self.keys.get(c.idx) for c in hk if self.keys.get(c.idx) is not None}
+        want_hints = set()
+        for a in hk:
+            for b in h.outgoing_order_links(a):
+                if not isinstance(h[b].op, ops.Output | ops.Input) and self.keys.get(a.idx) is not None and self.keys.get(b.idx) is not None:
+                    want_hints.add((self.keys[a.idx], self.keys[b.idx]))
+        for hint in hints:
+            if hint not in want_hints:
+                self.fail("order-hint", f"{where}:hint-without-order-edge", f"region hint {hint}; keys of children {sorted(map(str, key_of_child))}; order edges between keyed siblings {sorted(want_hints)}")
+                break
         for a in hk:
             for b in h.outgoing_order_links(a):
                 if isinstance(h[b].op, ops.Output | ops.Input):
